@@ -148,6 +148,8 @@ class Facts:
         with open(path) as f:
             self.j = json.load(f)
         self.crate = self.j["crate"]
+        from .inline import inline_outparam_helpers
+        self.inlined_helpers = inline_outparam_helpers(self.j)
         self.bodies = [Body(b) for b in self.j["bodies"]]
         self.by_path = {}
         for b in self.bodies:
